@@ -193,6 +193,7 @@ fn run_lim(id: u64, g: &LimCase) -> CaseResult {
         let (tau, t, _) = lim.state();
         // reference token bucket per key, in nanoseconds of credit: (level, stamp)
         let mut tb: BTreeMap<u64, (u128, u128)> = BTreeMap::new();
+        let mut tbx: BTreeMap<u64, (u128, u128)> = BTreeMap::new();
         // accepted arrivals per key: (time, tokens)
         let mut arrivals: BTreeMap<u64, Vec<(u128, u64, bool)>> = BTreeMap::new();
         for (i, ev) in g.events.iter().enumerate() {
@@ -242,6 +243,25 @@ fn run_lim(id: u64, g: &LimCase) -> CaseResult {
                         }
                         if tb_ok && v != 0 {
                             fail(&mut failures, "limiter refused traffic within the quota", format!("{:?}: bucket level {} ns >= cost {} ns, verdict {:?}", ev, level, cost, r), i);
+                        }
+                        // the same with the quota itself as the reference (max_tokens per period, exact
+                        // rational arithmetic, scaled by max_tokens): the limiter's own per-token time
+                        // is not taken on trust - it may round it down, never up
+                        {
+                            let n = g.max_tokens as u128;
+                            let cap = g.period * n;
+                            let xb = tbx.entry(*key).or_insert((cap, *el));
+                            let lvl = (xb.0 + (*el - xb.1) * n).min(cap);
+                            let xcost = g.period * *tokens as u128;
+                            let x_ok = xcost <= lvl;
+                            if x_ok && v != 0 && v != 3 {
+                                fail(&mut failures, "limiter refused traffic within the configured quota", format!("{:?}: {} tokens per {} ns, verdict {:?}", ev, g.max_tokens, g.period, r), i);
+                            }
+                            if v == 0 {
+                                *xb = (lvl.saturating_sub(xcost), *el);
+                            } else {
+                                *xb = (lvl, *el);
+                            }
                         }
                         if !tb_ok && v == 0 {
                             fail(&mut failures, "limiter let through traffic beyond the quota", format!("{:?}: bucket level {} ns < cost {} ns", ev, level, cost), i);
